@@ -9,6 +9,10 @@ use std::time::Instant;
 pub mod c01;
 pub mod c02;
 pub mod c03;
+pub mod c04;
+pub mod c11;
+pub mod c12;
+pub mod texts;
 pub mod explore;
 pub mod c08;
 pub mod c16;
@@ -345,6 +349,22 @@ pub fn workload(name: &str, tier: &str) -> Option<Box<dyn Workload>> {
         "c03" => Some(Box::new(c03::Docs {
             n: if quick { 40_000 } else { 1_000_000 },
         })),
+        "c04" => Some(Box::new(c04::Crash {
+            plan: texts::TextPlan::new(quick),
+        })),
+        "c04load" => Some(Box::new(c04::LoadCrash {
+            n: if quick { 30_000 } else { 1_000_000 },
+        })),
+        "c11" => Some(Box::new(c11::Texts {
+            plan: texts::TextPlan::new(quick),
+        })),
+        "c11err" => Some(Box::new(c11::ErrSpans {
+            n: if quick { 20_000 } else { 500_000 },
+        })),
+        "c12" => Some(Box::new(c12::Memo {
+            plan: texts::TextPlan::new(quick),
+        })),
+        "c12growth" => Some(Box::new(c12::Growth)),
         "c08" => Some(Box::new(c08::Binding {
             n: if quick { 5000 } else { 200_000 },
         })),
@@ -362,7 +382,10 @@ pub fn run_check(ctx: &Ctx) -> i32 {
         "C01" => c01::run(ctx),
         "C02" => c02::run(ctx),
         "C03" => c03::run(ctx),
+        "C04" => c04::run(ctx),
         "C08" => c08::run(ctx),
+        "C11" => c11::run(ctx),
+        "C12" => c12::run(ctx),
         other => {
             println!("unknown check {other}");
             2
